@@ -10,7 +10,7 @@ for ID in "$@"; do
   : > $OUT/confirm.txt
   for N in 1 2; do
     P=$OUT/mutant$N.patch; [ -f $P ] || continue
-    cd $WT && git checkout -q -- . && git clean -fdq -e target
+    cd $WT && git reset -q --hard HEAD && git clean -fdq -e target
     DEMO=$(ls $OUT/mutant${N}_demo.rs 2>/dev/null); DEMOSH=$(ls $OUT/mutant${N}_demo.sh 2>/dev/null)
     run_demo() {
       if [ -n "$DEMO" ]; then cp $DEMO $WT/tests/verif_demo_${ID}_$N.rs; (cd $WT && cargo test --offline --test verif_demo_${ID}_$N >/tmp/wtout/$ID/demo_$N.log 2>&1); echo $?
@@ -18,14 +18,16 @@ for ID in "$@"; do
       else echo nodemo; fi
     }
     PRIST=$(run_demo)
-    if git apply --check $P 2>/dev/null; then git apply $P; AP=clean; elif git apply --3way $P >/dev/null 2>&1; then git reset -q; AP=3way; else echo "mutant$N apply=FAILED" >> $OUT/confirm.txt; continue; fi
-    git diff > $OUT/mutant$N.rebased.patch
+    if git apply --check $P 2>/dev/null; then git apply $P; AP=clean
+    elif [ -f $OUT/mutant$N.rebased.patch ] && git apply --check $OUT/mutant$N.rebased.patch 2>/dev/null; then git apply $OUT/mutant$N.rebased.patch; AP=rebased-by-hand
+    else git reset -q --hard HEAD; echo "mutant$N apply=FAILED" >> $OUT/confirm.txt; continue; fi
+    git diff > $OUT/mutant$N.current.patch
     rm -f $WT/tests/verif_demo_*.rs
     SUITE=$(cd $WT && cargo test --offline --workspace --no-fail-fast 2>&1 | grep -E "^test result" | awk '{p+=$4; f+=$6} END {print p"p/"f"f"}')
     MUT=$(run_demo)
     rm -f $WT/tests/verif_demo_*.rs
     echo "mutant$N apply=$AP suite=$SUITE demo_pristine_rc=$PRIST demo_mutant_rc=$MUT" >> $OUT/confirm.txt
-    git checkout -q -- .
+    git reset -q --hard HEAD
   done
   cd /; git -C /repo worktree remove --force $WT
   echo "$ID: $(cat $OUT/confirm.txt | tr '\n' ';')"
